@@ -245,7 +245,12 @@ def liveRecs (ap : Bool) (lrid lasn rasn rrid : Nat) (acts : List (Bool Ã— Nat Ã
         left.map (fun n => rmIn (livePeerHdr 64 rasn rrid) (reach n)) ++ eor (livePeerHdr 64 rasn rrid) ++
         [locUp] ++ left.map (fun n => rm loc (locC (reach n))) ++ eor loc ++ closing
     else []
-  zipEmb (early ++ lateL) embs
+  -- `MrtDumper::run_loop` (update dump): one BGP4MP record per Adj-RIB-In event (`adj_rib_in_to_mrt`)
+  let mrtL : List (Option Bytes â†’ Rec) :=
+    acts.map (fun a e =>
+      Rec.mrtMp { rasn := rasn, lasn := lasn, ifidx := 0, raddr := .v4 [127, 0, 0, 1], laddr := .v4 [127, 0, 0, 1],
+                  asn4 := true } ap e (liveContent rasn a))
+  zipEmb (early ++ lateL ++ mrtL) embs
 
 /-- The record(s) the daemon hands to the codecs for one event. -/
 def Ev.toRecs : Ev â†’ List Rec
